@@ -1,6 +1,5 @@
 (* C02 - only CRLF.CRLF ends DATA; commands resume exactly after it.
-   READER-LEVEL part (the server-level theorem about Conn.serve is added
-   separately).
+   Reader-level part, and (at the end) the server's handle_data.
 
    Specification side, about [unstuff] alone, for every octet string s:
    * C02_marker_first: if the data is complete, the stream is
@@ -39,8 +38,29 @@
      specification is Complete (used for LMTP's copies of the drain);
    * C02_incomplete: if the stream holds no complete message, the first
      failing Read (the backend's or the drain's) reports the schedule's
-     failure, and by then all of the stream is consumed. *)
-From Smtp Require Import Bytes Transport DataReader DotSpec TransportProofs DataProofs DataProofs2.
+     failure, and by then all of the stream is consumed.
+
+   Server side, about handle_data of the connection model (finding F30,
+   repaired), for every configuration (SMTP, LMTP, LMTP with a per-recipient
+   backend; any size limit), every connection state in which DATA is answered
+   354, every backend plan and every network schedule:
+   * C02_failed_drain_closes: if the drain that follows the backend's return
+     ends with anything but io.EOF - the end marker has NOT been reached: the
+     stream ended, a read failed and nothing complete followed, or the read
+     deadline had expired (then every read fails until the command loop arms
+     the deadline again) - the state handle_data returns is closed (flag and
+     socket), its session logged out, and the command loop run on that state
+     with ANY remaining input does nothing but the deferred Close: no octet
+     of the rest of the message is ever read as a command (cf. C08
+     "nothing after Close").
+   * C02_drained_resumes: conversely, the drain reached the end marker and
+     nothing panicked: the connection stays as open as it was and the next
+     command is read from the transport the drain left, whose stream is
+     exactly what follows the marker (C02_resume).
+   * C02_cut_closes: the instance for an interrupted connection: no complete
+     message in the stream and nothing behind the failure that ends it. *)
+From Smtp Require Import Bytes Transport DataReader DotSpec TransportProofs DataProofs DataProofs2
+  Reply Conn BdatProofs CloseProofs.
 
 Theorem C02_marker_first s body rest :
   unstuff s = Complete body rest ->
@@ -170,6 +190,70 @@ Theorem C02_incomplete (mx : Z) (sizes : list nat) (stop : option N) (t : transp
     t_buf t2 = [] /\ t_raw t2 = raws_after (t_raw t) /\ t_limit t2 = t_limit t)).
 Proof. exact (drain_incomplete mx sizes stop t body). Qed.
 Print Assumptions C02_incomplete.
+
+(* ---- the server: an unfinished message closes the connection (F30) ---- *)
+
+Theorem C02_failed_drain_closes (cfg : config) (c : conn) :
+  data_accepted c ->
+  let '(p, _, (de, d2, t2)) := data_run cfg c in
+  drained de = false ->
+  let c' := fst (handle_data cfg c []) in
+  c_closed c' = true /\ t_closed (c_t c') = true /\ c_session c' = false /\ c_bdat c' = None /\
+  forall fuel, serve_loop (S fuel) cfg c' = [EClose].
+Proof. exact (handle_data_failed_drain_closes cfg c). Qed.
+Print Assumptions C02_failed_drain_closes.
+
+Theorem C02_drained_resumes (cfg : config) (c : conn) :
+  data_accepted c ->
+  let '(p, _, (de, d2, t2)) := data_run cfg c in
+  drained de = true -> dp_panic p = false -> dp_status p = [] ->
+  let c' := fst (handle_data cfg c []) in
+  c_closed c' = c_closed c /\ c_t c' = t2 /\ c_session c' = true /\
+  c_from c' = false /\ c_rcpts c' = [] /\ c_bdat c' = None.
+Proof. exact (handle_data_drained_resumes cfg c). Qed.
+Print Assumptions C02_drained_resumes.
+
+Theorem C02_cut_closes (cfg : config) (c : conn) body :
+  data_accepted c -> transparent (c_t c) ->
+  unstuff (tstream (c_t c)) = Incomplete body -> raws_after (t_raw (c_t c)) = [] ->
+  let c' := fst (handle_data cfg c []) in
+  c_closed c' = true /\ t_closed (c_t c') = true /\ c_session c' = false /\ c_bdat c' = None /\
+  forall fuel, serve_loop (S fuel) cfg c' = [EClose].
+Proof. exact (handle_data_cut_closes cfg c body). Qed.
+Print Assumptions C02_cut_closes.
+
+(* non-vacuity: a whole conversation.  DATA, one line of the message, then the
+   read deadline expires and stays expired (two failures in a row: the
+   backend's read, the drain), then the client sends the rest - a bait line,
+   the end marker, NOOP, QUIT: 554 and the connection is closed, none of it
+   is read.  With ONE failure the drain goes on and finds the end marker: NOOP
+   and QUIT are executed, the bait line is message text. *)
+Example C02_witness_failed_drain :
+  let run fails := serve 40 (ex_cfg 0 2000) ex_be
+                     [[xraw (f30_prelude ++ xln "DATA" ++ xln "first line")] ++ fails ++ [xraw f30_rest]] in
+  let sticky := run [RFail TTimeout; RFail TTimeout] in
+  let once := run [RFail TTimeout] in
+  cmd_lines sticky = [bs "EHLO x"; bs "MAIL FROM:<a@b>"; bs "RCPT TO:<c@d>"; bs "DATA"] /\
+  wire_codes sticky = map bs ["220"; "250"; "250"; "250"; "354"; "554"]%string /\
+  has_mail "bait@evil" sticky = false /\
+  skipn (List.length sticky - 3) sticky = [ELogout; EClose; EClose] /\
+  cmd_lines once = [bs "EHLO x"; bs "MAIL FROM:<a@b>"; bs "RCPT TO:<c@d>"; bs "DATA"; bs "NOOP"; bs "QUIT"] /\
+  wire_codes once = map bs ["220"; "250"; "250"; "250"; "354"; "554"; "250"; "221"]%string /\
+  has_mail "bait@evil" once = false.
+Proof. exact f30_data_witness. Qed.
+
+(* ... and the hypotheses of the two theorems hold on the states of that
+   conversation in which DATA is handled *)
+Example C02_witness_failed_drain_hypotheses :
+  let sticky := f30_conn [xraw (xln "first line"); RFail TTimeout; RFail TTimeout; xraw f30_rest] in
+  let once := f30_conn [xraw (xln "first line"); RFail TTimeout; xraw f30_rest] in
+  data_accepted sticky /\ data_accepted once /\
+  (let '(_, (_, term), (de, _, _)) := data_run (ex_cfg 0 2000) sticky in (term, drained de))
+  = (Some (RTransport TTimeout), false) /\
+  (let '(p, (_, term), (de, _, t2)) := data_run (ex_cfg 0 2000) once in
+   (term, drained de, dp_panic p, dp_status p, tstream t2))
+  = (Some (RTransport TTimeout), true, false, [], xln "NOOP" ++ xln "QUIT").
+Proof. exact f30_data_hypotheses. Qed.
 
 (* non-vacuity: see DataProofs2.marker_first_witness, lookalikes_witness,
    lookalike_hyps_witness, drain_resume_witness (limits none/above/at/below the
